@@ -452,6 +452,48 @@ example :
     s2.strong = 1 ∧ s2.loop.exited = none ∧ s2.subs = [⟨true, some 0, .held⟩] ∧
     s3.loop.exited = some .ok ∧ t.loop.exited = some .ok := by decide
 
+/-- **A refused request takes nothing away from the connection.** `open_substream` answered
+`ChannelClogged` (the connection's command channel is full: a burst of requests nobody has read yet)
+leaves the peer's handles where they were — the primary keeps its id, stays active if it was active
+(and is re-activated if a strong sender still exists), the secondary and every other peer's context
+are untouched — and the tracker either unchanged or with this attempt recorded as activity (the
+deadline only moves forward). So after a clogged open the protocol holds the connection until `T`
+after the last keep-alive activity, exactly as without it (`idle_closed_at`). -/
+theorem clogged_open_keeps_handle (s : Svc) (p now sid : Nat) (up : Bool) (ctx : KCtx)
+    (hctx : aget s.conns p = some ctx) :
+    (∃ ctx', aget (s.openSubstream p now up .full sid).1.conns p = some ctx' ∧
+        ctx'.primary.id = ctx.primary.id ∧ ctx'.secondary = ctx.secondary ∧
+        (ctx.primary.active = true → ctx'.primary.active = true) ∧
+        (ctx'.primary.active = true → ctx.primary.active = true ∨ up = true)) ∧
+    (∀ q, q ≠ p → aget (s.openSubstream p now up .full sid).1.conns q = aget s.conns q) ∧
+    ((s.openSubstream p now up .full sid).1.tr = s.tr ∨
+      (s.openSubstream p now up .full sid).1.tr = s.tr.activity ctx.primary.id now s.T) ∧
+    ((s.openSubstream p now up .full sid).2.2 = .error .channelClogged ∨
+      (s.openSubstream p now up .full sid).2.2 = .error .connectionClosed) := by
+  unfold Svc.openSubstream
+  rw [hctx]
+  by_cases h : (ctx.primary.active || up) = false
+  · simp [h, hctx]
+    exact Or.inl
+  · by_cases hka : s.ka = true
+    · have hup : ctx.primary.active = false → up = true := by
+        intro ha; simpa [ha] using h
+      cases ha : ctx.primary.active <;> simp_all [aget_aput, Handle.tryUpgrade]
+    · simp [h, hka, hctx]
+      exact Or.inl
+
+/-- Non-vacuity: peer 1's connection 10 was announced at 0; at 60 the command channel is full and the
+keep-alive protocol's `open_substream` is answered `ChannelClogged`: the handle is still active and
+the attempt is the last activity; with nothing else holding it the connection is kept at 159 and
+released at 160. -/
+example :
+    let s0 : Svc := { ka := true, T := 100, conns := [(1, ⟨⟨10, true⟩, none⟩)], tr := (({} : Tracker).activity 10 0 100) }
+    let r := s0.openSubstream 1 60 true .full 7
+    (match r.2.2 with | .error .channelClogged => true | _ => false) = true ∧
+    aget r.1.conns 1 = some ⟨⟨10, true⟩, none⟩ ∧ aget r.1.tr.last 10 = some 60 ∧
+    r.1.holds 10 = 1 := by
+  decide
+
 /-- The default timeout (regenerated from `src/transport/mod.rs`) is positive, so a fresh
 connection always gets a grace period. -/
 example : 0 < Consts.KEEP_ALIVE_TIMEOUT_SECS := by decide
@@ -466,6 +508,7 @@ end Litep2pVerif.Props.C09
 #print axioms Litep2pVerif.Props.C09.primary_secondary
 #print axioms Litep2pVerif.Props.C09.inbound_negotiation_holds_connection
 #print axioms Litep2pVerif.Props.C09.half_closed_substream_holds_connection
+#print axioms Litep2pVerif.Props.C09.clogged_open_keeps_handle
 
 /-! ## Wiring — what `Litep2p::new` hands over (coverage round `node`)
 
